@@ -192,6 +192,8 @@ where
     #[pin]
     inner: InnerCheckoutConnecting<T, P, B>,
     connection: Option<P::Connection>,
+    /// This checkout's attempt is the one other multiplexed checkouts wait for.
+    owns_attempt: bool,
     meta: ConnectorMeta,
     #[cfg(debug_assertions)]
     id: CheckoutId,
@@ -234,6 +236,7 @@ where
                     waiter: Waiting::NoPool,
                     inner: InnerCheckoutConnecting::ConnectingDelayed(connector.take().unwrap()),
                     connection: None,
+                    owns_attempt: *this.owns_attempt,
                     meta: ConnectorMeta::new(), // New meta to avoid holding spans in the spawned task
                     #[cfg(debug_assertions)]
                     id: *this.id,
@@ -271,6 +274,7 @@ where
             waiter: Waiting::NoPool,
             inner: InnerCheckoutConnecting::Connecting(connector),
             connection: None,
+            owns_attempt: false,
             meta: ConnectorMeta::new(),
             #[cfg(debug_assertions)]
             id,
@@ -283,6 +287,7 @@ where
         waiter: Receiver<Pooled<P::Connection, B>>,
         connect: Option<Connector<T, P, B>>,
         connection: Option<P::Connection>,
+        owns_attempt: bool,
         config: &Config,
     ) -> Self {
         #[cfg(debug_assertions)]
@@ -300,6 +305,7 @@ where
                 waiter: Waiting::Idle(waiter),
                 inner: InnerCheckoutConnecting::Connected,
                 connection,
+                owns_attempt,
                 meta,
                 #[cfg(debug_assertions)]
                 id,
@@ -319,6 +325,7 @@ where
                 waiter: Waiting::Idle(waiter),
                 inner,
                 connection,
+                owns_attempt,
                 meta,
                 #[cfg(debug_assertions)]
                 id,
@@ -331,6 +338,7 @@ where
                 waiter: Waiting::Connecting(waiter),
                 inner: InnerCheckoutConnecting::Waiting,
                 connection,
+                owns_attempt,
                 meta,
                 #[cfg(debug_assertions)]
                 id,
@@ -550,9 +558,12 @@ where
                     tracing::error!(error=%err, "error during delayed drop");
                 }
             });
-        } else if let Some(mut pool) = self.pool.lock() {
-            // Connection is only cancled when no delayed drop occurs.
-            pool.cancel_connection(self.token);
+        } else if self.owns_attempt {
+            // Connection is only cancled when no delayed drop occurs, and only
+            // by the checkout whose attempt the others are waiting for.
+            if let Some(mut pool) = self.pool.lock() {
+                pool.cancel_connection(self.token);
+            }
         }
     }
 }
